@@ -9,6 +9,7 @@ from __future__ import annotations
 
 import itertools
 
+from rt import impl
 from rt.jsonval import h
 
 ID = "C12"
@@ -262,7 +263,11 @@ def run(spec, ctx):
             doc_a = {"budget": r.choice([3, 10, 50]), "floor": r.choice([0, 2]), "items": [{"price": r.randint(1, 60), "id": i} for i in range(n)]}
             doc_b = {"budget": r.choice([0, 100]), "floor": 1, "items": [{"price": r.randint(1, 60), "id": 100 + i} for i in range(r.randint(1, 8))]}
             ctx_a, ctx_b = {"budget": r.choice([5, 30])}, {"budget": r.choice([0, 1000])}
-            want = list(jsonpath.compile(str(cp)).finditer(doc_a, filter_context=ctx_a))
+            wo = impl.call(lambda: list(jsonpath.compile(str(cp)).finditer(doc_a, filter_context=ctx_a)))
+            if not wo.ok:
+                ctx.violation("evaluation-raised:%s" % type(wo.exc).__name__, {"kind": "shared-compiled", "path": str(cp), "doc_a": doc_a, "doc_b": doc_b, "ctx_a": ctx_a, "ctx_b": ctx_b, "chain": [], "terminal": "iter"}, {"error": wo.desc()})
+                return
+            want = wo.value
             chain = [(r.choice(CHAINABLE), r.choice([-1, 0, 1, 2, 3, len(want) - 1, len(want), len(want) + 1])) for _i in range(r.randint(1, 6))]
             chain = [(op, (r.choice([0, 1, 2]) if op == "tee" else max(c, -1))) for op, c in chain]
             term = r.choice(TERMINALS)
